@@ -133,7 +133,11 @@ theorem step_later {s : St} (op : Op) (hop : op.faithful = true) (h : Inv s) : L
     | unmet t => exact Later.of_eq rfl rfl
     | forget t => exact Later.of_eq rfl rfl
     | ignore t => exact Later.of_eq rfl rfl
-    | resetDep t => exact resetDep_later s t
+    | resetDep t =>
+      simp only [resetDepKeep]
+      split
+      · exact Later.trans (resetDep_later s t) (Later.of_eq rfl rfl)
+      · exact resetDep_later s t
     | peek t =>
       simp only
       split
@@ -143,10 +147,12 @@ theorem step_later {s : St} (op : Op) (hop : op.faithful = true) (h : Inv s) : L
     | info t =>
       simp only [info]
       split
-      · exact Later.of_eq rfl rfl
+      · exact Later.refl s
       · split
         · exact Later.of_eq rfl rfl
-        · exact Later.refl s
+        · split
+          · exact Later.of_eq rfl rfl
+          · exact Later.refl s
     | switchChecker c => exact Later.of_eq rfl rfl
 
 theorem foldl_later (ops : List Op) (hf : Faithful ops = true) (s : St) (h : Inv s) :
